@@ -58,8 +58,10 @@ Definition group_ok (g : list N) : bool :=
   | _ => false
   end.
 
+(* as repaired (F21): only decimal digits and ';' - int() alone is more lenient *)
+Definition strict_chars (t : str) : bool := forallb (fun c => is_digit c || (c =? SEMI)) t.
 Definition parsable (t : str) : bool :=
-  valid t && match all_codes (to_list t) with Some g => group_ok g | None => false end.
+  valid t && strict_chars t && match all_codes (to_list t) with Some g => group_ok g | None => false end.
 
 (* AnsiSetting.get_initial_param: the AnsiParam of the first ';'-item, if any *)
 Definition initial_code (t : str) : option N :=
